@@ -8,9 +8,8 @@ from .build import ABSENT, BLANK
 from .core import Outcome, stable_hash
 from .treejson import E
 
-EPOCH_TICKS = 306 * 86400 * 8     # ticks (1/8 s) between 0000-03-01 (the model's epoch) and 0001-01-01
-
-
+TICKS = 10 ** 6                    # the model's unit: one microsecond
+EPOCH_TICKS = 306 * 86400 * TICKS  # ticks between 0000-03-01 (the model's epoch) and 0001-01-01
 ZONE_UNIT = 2 ** 60                # the model's zoneUnit
 
 
@@ -34,18 +33,19 @@ def ticks(dt):
         dt = dt.replace(tzinfo=None)
     delta = dt - datetime(1, 1, 1)
     us = (delta.days * 86400 + delta.seconds) * 10 ** 6 + delta.microseconds
-    if us % 125000:
-        raise Unrepresentable(repr(dt))
-    return us // 125000 + EPOCH_TICKS + ZONE_UNIT * zone
+    return us + EPOCH_TICKS + ZONE_UNIT * zone
 
 
 def eighths(x):
+    """A duration/offset (float seconds) in the model's unit.  The generated values are decimals with at most six
+    decimals; a float sum of such values is within 1e-3 µs of the exact one (IEEE rounding is not modelled)."""
     if x is None:
         return None
-    r = x * 8
-    if r != int(r) or r < 0:
+    r = x * TICKS
+    n = round(r)
+    if abs(r - n) > 1e-3 or n < 0:
         raise Unrepresentable(repr(x))
-    return int(r)
+    return int(n)
 
 
 def item_view(it):
@@ -91,7 +91,8 @@ FIELDS = ('duration', 'text_time', 'media_time', 'started', 'ended')
 STARTS = ['2021-03-04T10:00:00', '2021-03-04T10:07:30', '2020-02-29T23:59:59']
 ENDS = ['2021-03-04T10:05:00', '2021-03-04T11:00:00', '2020-03-01T00:00:10']
 ZONES = ['', '', 'Z', '+00:00', '+01:00', '-05:30', '+13:45']
-DURS = ['0', '3', '2.5', '12.25', '0.125', '60', '31', ' 3 ', '+2', '1e1', '25e-1', '0.5E1', '1.50', '007', '.5', '5.']
+DURS = ['0', '3', '2.5', '12.25', '0.125', '60', '31', ' 3 ', '+2', '1e1', '25e-1', '0.5E1', '1.50', '007', '.5', '5.',
+        '0.1', '0.2', '0.3337', '20.0004', '1.000001', '0.04', '7.7', '1e-3', '33.333333']
 
 
 def story_md_variants():
@@ -117,7 +118,7 @@ def _respelt(t, rng):
         if c < 0.4:
             v = v.replace('T', ' ')
         if rng.random() < 0.6:
-            v = v + rng.choice(['.5', '.125', '.250', '.875000', '.0'])
+            v = v + rng.choice(['.5', '.125', '.250', '.875000', '.0', '.1', '.000001', '.37'])
         t[2] = v
     t[4] = [_respelt(c, rng) for c in t[4]]
     return t
